@@ -22,7 +22,9 @@ from kopf._core.intents import registries
 from kopf._core.reactor import running
 
 logging.disable(logging.CRITICAL)
-ENCODED = [running.run_tasks, running.startup_cleanup_activities, running.stop_flag_checker, aiotasks.guard, aiotasks.stop,
+from kopf._core.engines import peering as _peering
+from vkopf.props import c13 as _c13
+ENCODED = [_peering.keepalive, _peering.touch, running.run_tasks, running.startup_cleanup_activities, running.stop_flag_checker, aiotasks.guard, aiotasks.stop,
            aiotasks.wait, aiotasks.reraise, activities.run_activity, daemons.daemon_killer, daemons.stop_daemon]
 META = {
     'bounds': 'two recording root tasks + the real stop-flag checker, startup/cleanup task, daemon killer and a core task; trigger in '
@@ -285,6 +287,17 @@ def h_lifecycle(trigger: int, at: int, su_dur: int, su_fails: bool, cu_dur: int,
     return vkopf.verdict(ok)
 
 
+def h_withdraw(lifetime: int, j0: int, j1: int, j2: int, lat: int, cancel_at: int) -> bool:
+    """
+    pre: lifetime >= 2 and 5 <= j0 <= 10 and 5 <= j1 <= 10 and 5 <= j2 <= 10
+    pre: 0 <= lat <= 3 and 0 <= cancel_at <= 3
+    post: _ == True
+    """
+    # "the peering record is withdrawn": the real peering.keepalive() stopped at an arbitrary early instant, also while its
+    # first request is still in flight (shared with C13 h_keepalive; this obligation's cell sets 'early')
+    return _c13.keepalive_impl(lifetime, j0, j1, j2, 0, lat, cancel_at)
+
+
 def obligations():
     B = [False, True]
     obs = []
@@ -303,6 +316,7 @@ def obligations():
                  trigger=[0, 1, 2, 3, 4], su_fails=B, with_daemon=B, hung=B, su2_retries=B, staged=[False])
     obs += split(Ob('h_lifecycle', {'coarse': True}, tiers=('thorough',), timeout=1800, path_timeout=300),
                  trigger=[0, 1, 2, 3], su_fails=[False], with_daemon=[True], hung=B, su2_retries=[False], staged=[True])
+    obs.append(Ob('h_withdraw', {'early': True}, timeout=900, twins=['withdrawn_during_first_request']))
     obs += split(Ob('h_lifecycle', {}, tiers=('thorough',), timeout=3400, path_timeout=300), trigger=[0, 1, 2, 3], su_fails=[False],
                  with_daemon=[True], hung=[False], su2_retries=[False], staged=[False])
     return obs
